@@ -2,7 +2,7 @@
    epilogue facts (process_facts), layout lock-step (process_chk), apply2_sem. *)
 From Coq Require Import List NArith Lia Bool Arith PeanoNat.
 Import ListNotations.
-From BddVerif Require Import Model.Bdd Model.Apply Proofs.Sem.
+From BddVerif Require Import Model.Bdd Model.Apply Proofs.Sem Proofs.Canon.
 Open Scope N_scope.
 
 Lemma task_eqb_spec a b : reflect (a = b) (task_eqb a b).
@@ -636,6 +636,70 @@ Section Apply.
         assert (p <> 0) by (apply F3; auto).
         cbn [nodes Apply.s0] in F1. change (size [zero; one]) with 2 in F1. lia.
       + destruct (F4 ltac:(intros _; reflexivity)) as (_ & Hp0). rewrite (Hp0 eq_refl). reflexivity.
+  Qed.
+
+  (* ------------------------------------------------------------------ *)
+  (* Canonicity of the result                                            *)
+  Lemma Inv_reduced s : Inv s -> reduced (nodes s).
+  Proof.
+    intros (HS & Ha & Hb & _). destruct HS as (_ & _ & _ & Hn). split.
+    - intros p Hp Hlt. destruct (Hn p Hp Hlt) as (_ & _ & _ & _ & _ & H). exact H.
+    - intros p q Hp Hpl Hq Hql E.
+      pose proof (Hb p Hp Hpl) as E1. pose proof (Hb q Hq Hql) as E2. rewrite E in E1. congruence.
+  Qed.
+
+  Lemma canonical_false : Canonical [zero] /\ nvars [zero] = nv.
+  Proof.
+    split; [|reflexivity]. unfold Canonical. splits.
+    - unfold wf. cbn. splits; try reflexivity; try lia.
+    - split; intros p; cbn; intros; lia.
+    - left. reflexivity.
+  Qed.
+
+  Theorem apply2_full : exists r, apply2 = Some r /\ (Canonical r /\ nvars r = nv) /\
+      forall v, eval r v = spec root (oflip fo v).
+  Proof.
+    pose proof root_valid as Vr. pose proof Inv_s0 as HI0. pose proof (level_le root Vr) as Hle.
+    destruct apply2_sem as (r & Er & Sr). exists r. split; [exact Er|]. split; [|exact Sr].
+    unfold Apply.apply2 in Er.
+    destruct (N.eq_dec (level root) nv) as [Eq|Ne].
+    - (* both roots terminal: no node is created *)
+      destruct (level_nv_terminal root Vr Eq) as (T1 & T2). destruct Vr as (V1 & V2).
+      destruct (as_bool_term _ T1) as (a & Ea), (as_bool_term _ T2) as (b & Eb).
+      assert (Hk : t_lo root = root /\ t_hi root = root).
+      { unfold Apply.t_lo, Apply.t_hi, kids. rewrite Eq.
+        rewrite (term_get A _ WA V1 T1), (term_get B _ WB V2 T2). cbn [nvar nlow nhigh].
+        fold nv. rewrite <- NV. fold nv. rewrite N.eqb_refl. cbn [negb].
+        rewrite (oeq_nv fa FA), (oeq_nv fb FB). cbn [fst snd]. destruct root; auto. }
+      destruct Hk as (Klo & Khi).
+      cbn [Apply.process] in Er. rewrite Klo, Khi in Er.
+      assert (Hens : forall s, ensure_with (process (S (N.to_nat (nvars A)))) root s = Some (of_bool (bop a b), s)).
+      { intros s. unfold Apply.ensure_with. rewrite Ea, Eb, OP_total. reflexivity. }
+      assert (Htrue : Canonical [zero; one] /\ nvars [zero; one] = nv).
+      { split; [|reflexivity]. pose proof (Inv_reduced _ HI0) as R0. destruct HI0 as (HS0 & _).
+        unfold Canonical. splits; [exact (store_wf _ HS0)|exact R0|].
+        right. reflexivity. }
+      destruct (oeq fo (level root)); rewrite !Hens in Er; unfold mk in Er; rewrite N.eqb_refl in Er;
+        cbn [nonempty set_ne memo nodes Apply.s0] in Er; rewrite orb_diag in Er;
+        destruct (bop a b); cbn in Er; inversion Er; subst r; try exact Htrue; exact canonical_false.
+    - assert (Hlt : level root < nv) by lia.
+      destruct (process_ok (S (S (N.to_nat nv))) root s0 HI0 Vr Hlt ltac:(lia)) as (p & s' & E & HI' & X & (Pp & _ & Sp)).
+      pose proof (process_facts (S (S (N.to_nat nv))) root s0 p s' HI0 Vr Hlt ltac:(lia) E) as (F1 & _ & F3 & F4).
+      pose proof (process_chk (S (S (N.to_nat nv))) root s0 p s' HI0 Vr Hlt ltac:(lia) E) as C.
+      unfold nv in E. rewrite E in Er. inversion Er; subst r. clear Er.
+      destruct (nonempty s') eqn:En; [|exact canonical_false].
+      pose proof (proj1 HI') as HS'. pose proof (store_nvars _ HS') as Hnv'.
+      split; [|exact Hnv'].
+      unfold Canonical. splits; [exact (store_wf _ HS')|exact (Inv_reduced _ HI')|].
+      right. rewrite Hnv'.
+      cbn [nodes Apply.s0] in F1. change (size [zero; one]) with 2 in F1.
+      destruct F1 as [F1|F1].
+      + rewrite F1. reflexivity.
+      + assert (Hroot : size (nodes s') - 1 = p) by lia. rewrite Hroot.
+        specialize (C (nodes s') (S (N.to_nat nv))). cbn [nodes Apply.s0] in C.
+        change (size [zero; one]) with 2 in C. apply C.
+        * exists []. now rewrite app_nil_r.
+        * lia.
   Qed.
 End Apply.
 Check apply2_sem.
